@@ -343,7 +343,21 @@ func init() {
 		}
 		return &IfaceV{}
 	}
-	intercepts["opaque:coro.Set"] = func(ex *Exec, fr *Frame, a []Value, s ssa.Instruction) Value { return nil }
+	intercepts["opaque:coro.Set"] = func(ex *Exec, fr *Frame, a []Value, s ssa.Instruction) Value {
+		if k, ok := a[1].(*Term); ok {
+			if ks, ok := k.StrVal(); ok && ks == "config" {
+				ex.W.config = a[2]
+			}
+		}
+		return nil
+	}
+	// gocoro.New: the scheduler is opaque; coroutines run at gocoro.Add (see above), so it is always empty
+	intercepts[g+"New"] = func(ex *Exec, fr *Frame, a []Value, s ssa.Instruction) Value {
+		return &IfaceV{typ: ex.P.errorStringType(), v: &OpaqueV{kind: "gsched"}}
+	}
+	intercepts["opaque:gsched.RunUntilBlocked"] = func(ex *Exec, fr *Frame, a []Value, s ssa.Instruction) Value { return nil }
+	intercepts["opaque:gsched.Shutdown"] = func(ex *Exec, fr *Frame, a []Value, s ssa.Instruction) Value { return nil }
+	intercepts["opaque:gsched.Size"] = func(ex *Exec, fr *Frame, a []Value, s ssa.Instruction) Value { return ex.tt.BV(0, 64) }
 
 	vx("Coroutine", func(ex *Exec, fr *Frame, a []Value, s ssa.Instruction) Value {
 		flags := ex.concreteInt(a[0], "coroutine flags")
@@ -370,6 +384,21 @@ func init() {
 		// a kind registered twice: the later registration wins (map assignment in AddOnRequest)
 		fn := fns[len(fns)-1]
 		return &IfaceV{typ: fn.Signature, v: &FuncV{fn: fn}}
+	})
+	// a path that ends blocked on a channel is a normal end (a worker loop waiting for more events)
+	vx("BlockOK", func(ex *Exec, fr *Frame, a []Value, s ssa.Instruction) Value {
+		ex.W.blockOK = true
+		return nil
+	})
+	// select chooses any ready case (all choices explored) instead of the first
+	vx("NondetSelect", func(ex *Exec, fr *Frame, a []Value, s ssa.Instruction) Value {
+		ex.W.nondetSelect = true
+		return nil
+	})
+	// producers: f runs before every select of the code under test (it may deliver pending events)
+	vx("OnSelect", func(ex *Exec, fr *Frame, a []Value, s ssa.Instruction) Value {
+		ex.W.onSelect = a[0]
+		return nil
 	})
 	vx("IgnoreGo", func(ex *Exec, fr *Frame, a []Value, s ssa.Instruction) Value {
 		ex.W.ignoreGo = true
